@@ -66,7 +66,7 @@ def Good (a b : St) : Prop := SafeP a → SafeP b ∧ runErrorsOf a <+: runError
 theorem good : CtxRel ["runErrors", "p"] Good where
   trans := fun h1 h2 ha =>
     ⟨(h2 (h1 ha).1).1, List.IsPrefix.trans (h1 ha).2 (h2 (h1 ha).1).2⟩
-  same := fun a b h ha => by
+  same := fun a b h _ ha => by
     refine ⟨fun cfg hc => ha cfg (by rw [← h "p" (by simp)]; exact hc), ?_⟩
     rw [runErrorsOf_congr a b (h "runErrors" (by simp))]
     exact List.prefix_refl _
@@ -75,12 +75,35 @@ theorem good : CtxRel ["runErrors", "p"] Good where
   noWhile := by decide
 
 theorem good_of_keys (a b : St) (h1 : Ctx.get? b.ctx "runErrors" = Ctx.get? a.ctx "runErrors")
-    (h2 : Ctx.get? b.ctx "p" = Ctx.get? a.ctx "p") : Good a b :=
-  good.same a b (fun k hk => by
+    (h2 : Ctx.get? b.ctx "p" = Ctx.get? a.ctx "p") : Good a b := by
+  -- `Good` does not look at the ghost log: go through a state with `a`'s log
+  intro ha
+  have hk : ∀ k, k ∈ ["runErrors", "p"] → Ctx.get? b.ctx k = Ctx.get? a.ctx k := by
+    intro k hk
     simp only [List.mem_cons, List.not_mem_nil, or_false] at hk
     rcases hk with rfl | rfl
     · exact h1
-    · exact h2)
+    · exact h2
+  have := good.same a { b with escapes := a.escapes } hk rfl ha
+  exact ⟨fun cfg hc => this.1 cfg hc, by
+    have e : runErrorsOf b = runErrorsOf { b with escapes := a.escapes } := rfl
+    rw [e]; exact this.2⟩
+
+/-- `Good` reads only the context: a state with the same context is as good. -/
+theorem good_ctx_right (a b b' : St) (h : b'.ctx = b.ctx) (hg : Good a b) : Good a b' := by
+  intro ha
+  obtain ⟨h1, h2⟩ := hg ha
+  exact ⟨fun cfg hc => h1 cfg (by rw [← h]; exact hc), by
+    have e : runErrorsOf b' = runErrorsOf b := by unfold runErrorsOf; rw [h]
+    rw [e]; exact h2⟩
+
+theorem good_ctx_left (a a' b : St) (h : a'.ctx = a.ctx) (hg : Good a b) : Good a' b := by
+  intro ha
+  have ha' : SafeP a := fun cfg hc => ha cfg (by rw [h]; exact hc)
+  obtain ⟨h1, h2⟩ := hg ha'
+  exact ⟨h1, by
+    have e : runErrorsOf a' = runErrorsOf a := by unfold runErrorsOf; rw [h]
+    rw [e]; exact h2⟩
 
 theorem saveError_good (d : StepDef) (s : St) (e : ExcV) (sw : Bool) : Good s (saveError d s e sw).1 := by
   intro hs
@@ -90,6 +113,13 @@ theorem saveError_good (d : StepDef) (s : St) (e : ExcV) (sw : Bool) : Good s (s
   rcases saveError_ctx d s e sw with h | ⟨ent, h⟩
   · rw [← h]; exact hc
   · rw [h, ctx_get_set_ne _ _ _ _ (by decide)] at hc; exact hc
+
+theorem record_good (d : StepDef) (s : St) (e : ExcV) (sw : Bool) :
+    Good s (saveError d (logEscape d s e false) e sw).1 :=
+  good_ctx_left _ _ _ (logEscape_ctx d s e false).symm (saveError_good d (logEscape d s e false) e sw)
+
+theorem log_good (d : StepDef) (s : St) (e : ExcV) : Good s (logEscape d s e false) :=
+  good_ctx_right s s _ (logEscape_ctx d s e false) (good.refl s)
 
 /-! ### `in` arguments of an ok step -/
 
@@ -233,13 +263,13 @@ theorem probeCtx_get (cfg : List (Val × Val)) (ctx1 : Ctx) (k : String)
   · rw [e3, e2]
 
 /-- every way the probe ends leaves the context it built. -/
-theorem probeTail_ctx (s1 : St) (fi : Except Exc Bool) (sc : Val) (msg : String) :
+theorem probeTail_ctx (s1 : St) (fi : Except Exc Bool) (sc : Val) (msg : String) (g : String → String) :
     (match fi with
      | .error x => raiseExc s1 x
      | .ok true => raiseNew s1 "vprobe.ProbeError" msg
      | .ok false =>
        match sc with
-       | .str name => raiseNew s1 name msg
+       | .str name => raiseNew s1 name (g name)
        | _ => (s1, .ok)).1.ctx = s1.ctx := by
   cases fi with
   | error x => rfl
@@ -248,13 +278,13 @@ theorem probeTail_ctx (s1 : St) (fi : Except Exc Bool) (sc : Val) (msg : String)
     | true => rfl
     | false => cases sc <;> rfl
 
-theorem probeTail_res (s1 : St) (fi : Except Exc Bool) (sc : Val) (msg : String) (c : CofCfg) :
+theorem probeTail_res (s1 : St) (fi : Except Exc Bool) (sc : Val) (msg : String) (g : String → String) (c : CofCfg) :
     (match fi with
      | .error x => raiseExc s1 x
      | .ok true => raiseNew s1 "vprobe.ProbeError" msg
      | .ok false =>
        match sc with
-       | .str name => raiseNew s1 name msg
+       | .str name => raiseNew s1 name (g name)
        | _ => (s1, .ok)).2 ≠ .call c := by
   cases fi with
   | error x => simp [raiseExc, raiseNew]
@@ -268,7 +298,7 @@ theorem probeStep_ctx (s : St) (cfg : List (Val × Val)) (hp : Ctx.get? s.ctx "p
   unfold probeStep
   rw [hp]
   simp only []
-  exact ⟨_, probeTail_ctx _ _ _ _⟩
+  exact ⟨_, probeTail_ctx _ _ _ _ (fun name => excStr name _)⟩
 
 theorem probeStep_not_call (s s1 : St) (c : CofCfg) : probeStep s ≠ (s1, .call c) := by
   intro h
@@ -276,7 +306,7 @@ theorem probeStep_not_call (s s1 : St) (c : CofCfg) : probeStep s ≠ (s1, .call
   unfold probeStep at h2
   split at h2
   · simp only [] at h2
-    exact probeTail_res _ _ _ _ c h2
+    exact probeTail_res _ _ _ _ (fun name => excStr name _) c h2
   · simp [raiseNew] at h2
 
 theorem cntKey_ne (t k : String) (hk : k = "runErrors" ∨ k = "p") : "_n_" ++ t ≠ k := by
@@ -289,7 +319,7 @@ theorem probeStep_good : Keeps Good probeStep := by
   cases hp : Ctx.get? s.ctx "p" with
   | none =>
     have : (probeStep s).1.ctx = s.ctx := by unfold probeStep; rw [hp]; rfl
-    exact good.same s _ (fun k _ => by rw [this]) hs
+    exact good_ctx_right s s _ this (good.refl s) hs
   | some v =>
     cases v with
     | dict cfg =>
@@ -301,7 +331,7 @@ theorem probeStep_good : Keeps Good probeStep := by
       exact good_of_keys s _ (hk _ (.inl rfl)) (hk _ (.inr rfl)) hs
     | _ =>
       have : (probeStep s).1.ctx = s.ctx := by unfold probeStep; rw [hp]; rfl
-      exact good.same s _ (fun k _ => by rw [this]) hs
+      exact good_ctx_right s s _ this (good.refl s) hs
 
 /-! ### call / jump / switch -/
 
